@@ -58,6 +58,25 @@ NOTES = {
     'r6c_2': 'missed at first (absent labels of integer spans were other integers); caught after every other record realises an absent label as the string that spells a present one',
     'r6c_6': 'missed at first (period labels never spelt a name of the model); caught after the span kind whose labels are the alias and variable names',
     'r6c_7': 'missed at first (integer data were small); caught after integer cells were moved beyond 2**53',
+    'r7a_1': 'missed at first by the snapshot of the machinery (no replay ever made a non-check endogenous variable non-finite); caught after the WNAN variant of the Solver replay',
+    'r7a_2': 'missed at first (C04 ran on the Python engine only); caught after the frame condition is also checked on the Fortran engine with non-finite inputs under every errors policy',
+    'r7a_3': 'missed at first (no span had negative integer labels); caught after the span kind range(-2, L-2) was added to the C05 replay',
+    'r7a_4': 'missed at first (scripted warnings were NumPy RuntimeWarnings only); caught after the UserWarning flavour of warning-raising statements',
+    'r7a_5': 'missed at first (a differing span was always one period longer); caught after spans that differ only in an interior label',
+    'r7a_6': 'missed at first (the tabular view of a Trace was never looked at); caught after Trace.to_dataframe() is compared with the trace after repeated solves',
+    'r7a_7': 'missed at first (no program combined a product, a unary minus and a power); caught after layer fortran_negpow - which also exposed a defect of my own earlier repair (KNOWN_FINDINGS: ebdfce3, bd65fe4)',
+    'r7b_1': 'NOT caught, and left so: the change extends the accepted syntax to identifiers outside ASCII (and mishandles those that NFKC-normalise); such names are not part of the documented equation syntax C01 quantifies over, and on the pinned tree a script that uses one on a right-hand side is already accepted and fails at run time, so "accepted implies faithful" cannot be demanded for them without alarming on the unchanged tree',
+    'r7b_2': 'missed at first (the default range was only asked of fresh objects); caught after C03 also asks it of the result of reindex() to a longer and a shorter span',
+    'r7b_3': 'missed at first (the backslash was not in the alphabet of C13); caught after it joined the class of characters with no role in the splitter',
+    'r7b_4': 'missed at first (numeric literals were 2, 0.5, 0.1 ...); caught after layer nums (very small / very large literals, no digit before or after the point, leading zeros)',
+    'r7b_5': 'missed at first (CODE was read right after build_model, from the same untouched list); caught after the caller\'s list is emptied before CODE is read and converter calls are counted per build',
+    'r7c_1': 'first evaluation ended in a machinery failure (a private cache attribute made the initial projection differ); caught by ContainerTrace (misfit + shape) once private bookkeeping attributes are tolerated',
+    'r7c_2': 'missed at first (DatetimeIndex spans were addressed with Timestamps and strings only); caught after the numpy.datetime64 label form',
+    'r7c_3': 'first evaluation ended in a machinery failure (the harness could not read a damaged copy); caught once unreadable objects are classified as a disagreement',
+    'r7c_4': 'missed at first (a true fill of a boolean series was always spelt True); caught after the spelling 0.5',
+    'r7c_5': 'missed at first (integer series were small); caught after a lag / lead / diff pass on integers beyond 2**53',
+    'r7c_6': 'missed at first (the alias-headed table was only compared, never read back); caught after a model is rebuilt from it through from_dataframe()',
+    'r7c_7': 'missed at first (the table was compared at the moment of export only); caught after the model is written to and the table edited afterwards',
     'c14_b': 'missed at first (comments of the catalogue had balanced brackets); caught after the comments layout got unmatched brackets',
 }
 
@@ -88,5 +107,8 @@ with open(os.path.join(root, 'README.md'), 'w') as f:
         f.write('| ' + ' | '.join(str(x) for x in r) + ' |\n')
     n = len(rows)
     c = sum(1 for r in rows if r[4] not in ('NOT CAUGHT', 'not evaluated'))
-    f.write(f'\n{c} of {n} evaluated changes are caught by the quick tier of the check of their own property.\n')
+    f.write(f'\n{c} of {n} evaluated changes are caught by the quick tier of the check of their own property'
+            + ('.\n' if c == n else ' (see the note of the one that is not).\n'))
+    f.write('\nRound 7 (r7*) was first evaluated against a snapshot of the machinery as it stood before any strengthening for that round: '
+            '1 of 20 was caught (`first_evaluation` in the meta.json files); the column "caught by" shows the current machinery.\n')
 print('written', len(rows))
